@@ -244,6 +244,7 @@ def generate(rng: random.Random, tier: str) -> dict:
         "band_chunk": band_chunk,
         "sink": sink,
         "place": place,
+        "noise": rng.random() < 0.4,  # incompressible pixel values
         # something is already at the destination path (a re-run, a second save to the same name)
         "dst_exists": bool(sink == "file" and rng.random() < 0.12),
         "s3_min_write": rng.choice([4 << 10, 8 << 10, 16 << 10, 64 << 10]),
@@ -257,6 +258,10 @@ def generate(rng: random.Random, tier: str) -> dict:
             "recompute": rng.choice([0.0, 0.0, 0.1, 0.3]),
             "stall": rng.choice([0.0, 0.0, 0.1]),
             "policy": draw_policy(rng, groups=None, horizon=400),
+            # where worker threads can be pre-empted (sinks: the two sink files; tiles: + tile compression and header
+            # patching; all: + the multi-part protocol), and whether workers are made to meet inside the sink code
+            "trace": rng.choice(["sinks", "tiles", "tiles", "all"]),
+            "rendezvous": rng.random() < 0.4,
         },
         "uuid_seed": rng.getrandbits(32),
         # same values, other in-memory representation (what netCDF / FITS readers hand out)
@@ -264,18 +269,40 @@ def generate(rng: random.Random, tier: str) -> dict:
         # GDAL-style keyword spelling of the codec level
         "gdal_level_kw": rng.random() < 0.15,
     }
+    if not big and rng.random() < 0.10:
+        # sink pressure: the conjunction under which several tasks make part writes of their own, and early -
+        # incompressible pixels, tiles of 8 KiB and more, a small spill threshold, several writes per chunk,
+        # several workers that are made to meet inside the sink code.  Drawn one factor at a time it comes up in
+        # about one run in a thousand, and first writes of two tasks never overlapped in 900 runs (c05i, c05l)
+        ny, nx = rng.choice([100, 128, 129, 150, 200]), rng.choice([100, 128, 129, 150, 200])
+        if np.dtype(cfg["dtype"]).itemsize < 2 or cfg["dtype"] == "bool":
+            wide = [t for t in CODEC_DOMAIN["ok"] if t[0] in ("uint16", "int16", "int32", "float32")]
+            cfg["dtype"], cfg["compression"], cfg["predictor"] = rng.choice(wide)
+            cfg["level"] = None
+            if cfg["nodata"] == "nan" and np.dtype(cfg["dtype"]).kind != "f":
+                cfg["nodata"] = None
+        cfg.update(noise=True, blocksize=rng.choice([[64], [64, 32], [48], [128, 64]]), spill_sz=rng.choice([1, 1 << 12, 1 << 14]), wpc=rng.choice([2, 4]), irregular_chunks=None, chunks=rng.choice([[64, 64], [32, 64], [200, 200]]), big_endian_input=False)
+        if cfg["sink"] == "s3-cluster" and rng.random() < 0.5:
+            cfg["sink"] = "file"
+            cfg["place"] = rng.choice(["default", "default", "base-exists", "base-nested"])
+        cfg["dask"].update(workers=rng.choice([2, 3, 4]), rendezvous=True, trace=rng.choice(["sinks", "sinks", "all"]), stall=0.0)
+        cfg["pressure"] = True
     return {"config": cfg, "workload": {"shape": [ny, nx]}}
 
 
 # --------------------------------------------------------------------------------------
 # execution
 # --------------------------------------------------------------------------------------
-def make_pixels(ny: int, nx: int, ns: int, axis: str, dtype: str) -> np.ndarray:
+def make_pixels(ny: int, nx: int, ns: int, axis: str, dtype: str, noise: bool = False) -> np.ndarray:
     dt = np.dtype(dtype)
     rows, cols = np.meshgrid(np.arange(ny, dtype="int64"), np.arange(nx, dtype="int64"), indexing="ij")
 
     def plane(b: int) -> np.ndarray:
         v = rows * 131 + cols * 7 + b * 1009 + 1
+        if noise:
+            # still a function of (band, row, col), but nothing a predictor or an entropy coder can squeeze: compressed
+            # tiles stay large enough for partitions to spill from inside tasks (ramps compress to a few dozen bytes)
+            v = ((v * 2654435761) ^ ((v * 40503) >> 3)) & 0x7FFFFFFF
         if dt.kind == "b":
             return ((v * 2654435761) >> 7) % 5 < 2  # a mask: no run-length or period a tile shift would preserve
         if dt.kind == "f":
@@ -416,6 +443,11 @@ def _execute(record: dict, rng: Optional[random.Random]) -> Outcome:
         "sink_s3_cluster": 0,
         "sink_cross_device": 0,
         "destination_existed": 0,
+        "trace_sinks": 0,
+        "trace_tiles": 0,
+        "trace_all": 0,
+        "workers_met_in_sink_code": 0,
+        "sink_pressure_runs": 0,
         "s3_multiple_parts": 0,
         "multi_worker": 0,
         "padding_adds_whole_tiles": 0,
@@ -430,7 +462,7 @@ def _execute(record: dict, rng: Optional[random.Random]) -> Outcome:
         "bag_repartitioned": 0,
     }
     axis, ns, dtype = cfg["axis"], cfg["ns"], cfg["dtype"]
-    data = make_pixels(ny, nx, ns, axis, dtype)
+    data = make_pixels(ny, nx, ns, axis, dtype, noise=bool(cfg.get("noise")))
     aff, crs = _gbox_params(cfg["crs"], ny, nx, cfg.get("gbox", "std"))
     nodata = float("nan") if cfg["nodata"] == "nan" else cfg["nodata"]
     if hasattr(OD, "uuid4"):
@@ -525,7 +557,13 @@ def _execute(record: dict, rng: Optional[random.Random]) -> Outcome:
                     cluster.default_client = None
             fut = save_cog_with_dask(xx, dst_arg, **kw)
             workers = dcfg["workers"]
-            kernel = K.Kernel(trace_files=_sink_files(), seam_funcs=()) if workers > 1 else None
+            # worker threads are pre-empted at every line of the sink files and - "trace" knob - of the tile
+            # compression / header patching code (_tifffile.py) and of the multi-part protocol (_mpu.py)
+            trace = dcfg.get("trace") or "sinks"
+            tfiles = _sink_files() + ((_cog_files()[0],) if trace in ("tiles", "all") else ()) + ((_cog_files()[1],) if trace == "all" else ())
+            kernel = K.Kernel(trace_files=tfiles, seam_funcs=()) if workers > 1 else None
+            if kernel is not None:
+                probes[f"trace_{trace}"] = 1
             if workers > 1:
                 probes["multi_worker"] = 1
             sim = DaskSim(
@@ -540,6 +578,7 @@ def _execute(record: dict, rng: Optional[random.Random]) -> Outcome:
                 kernel=kernel,
                 log_tasks=True,
                 real=dcfg.get("real"),
+                rendezvous=(_in_sink_code if (dcfg.get("rendezvous") and workers > 1) else None),
             )
             if kernel is not None:
                 K.activate(kernel)
@@ -601,6 +640,10 @@ def _execute(record: dict, rng: Optional[random.Random]) -> Outcome:
     order = tuple(sim.order) if sim else ()
     if sim is not None and sim.max_parallel > 1:
         probes["concurrent_writer_calls"] = 1
+    if cfg.get("pressure"):
+        probes["sink_pressure_runs"] = 1
+    if sim is not None and sim.rendezvous_met:
+        probes["workers_met_in_sink_code"] = 1
     if sim is not None and any("repartition" in str(c[0]) for c in sim.order):
         probes["bag_repartitioned"] = 1
     cls = (str(record["workload"]), str({k: v_ for k, v_ in cfg.items() if k not in ("dask", "uuid_seed")}), order, tuple(ch.faults_out))
@@ -624,6 +667,16 @@ def _sha(p: Path) -> str:
 
 
 _SINK_FILES: Optional[Tuple[str, ...]] = None
+
+
+def _in_sink_code(label: Any) -> bool:
+    return isinstance(label, tuple) and len(label) > 1 and label[0] == "line" and label[1] in ("_mpu_fs.py", "_s3.py")
+
+
+def _cog_files() -> Tuple[str, str]:
+    from odc.geo.cog import _mpu, _tifffile
+
+    return (_tifffile.__file__, _mpu.__file__)
 
 
 def _sink_files() -> Tuple[str, ...]:
@@ -833,7 +886,7 @@ def check_file(path: Path, data: np.ndarray, cfg: dict, aff: List[float], crs: s
 def candidates(record: dict) -> Iterable[dict]:
     cfg = record["config"]
     ny, nx = record["workload"]["shape"]
-    simple_dask = {"workers": 1, "optimize": True, "transport": 0.0, "recompute": 0.0, "stall": 0.0, "policy": None}
+    simple_dask = {"workers": 1, "optimize": True, "transport": 0.0, "recompute": 0.0, "stall": 0.0, "policy": None, "trace": "sinks", "rendezvous": False}
     if cfg["dask"] != simple_dask:
         c = copy.deepcopy(record)
         c["config"]["dask"] = dict(simple_dask)
@@ -854,7 +907,7 @@ def candidates(record: dict) -> Iterable[dict]:
             c["config"]["sink"] = "s3"
             yield c
     for k, simple in (
-        ("place", "default"), ("dst_exists", False), ("stats", False), ("bigtiff", True), ("nodata", None), ("level", None), ("spill_sz", "default"), ("wpc", "default"),
+        ("place", "default"), ("dst_exists", False), ("noise", False), ("stats", False), ("bigtiff", True), ("nodata", None), ("level", None), ("spill_sz", "default"), ("wpc", "default"),
         ("resampling", "nearest"), ("predictor", "unset"), ("blocksize", [16]), ("blocksize", [32]), ("band_chunk", "all"), ("crs", 4326), ("gbox", "std"),
     ):
         if cfg.get(k) != simple and not (k == "place" and cfg["sink"] != "file"):
